@@ -19,15 +19,20 @@ HARNESSES = {
     'status_code_raw': ('StatusCode::raw', ['C16', 'C05'], 'all 11 x 11 pairs of status codes', True, False),
     'mediatype_as_str': ('MediaType::as_str', ['C16', 'C05'], 'both media types', True, False),
     'header_raw_names': ('Header::raw', ['C05'], 'all 7 header names', True, False),
-    'mediatype_roundtrip': ('MediaType::try_from(as_str)', ['C16'], 'the two canonical strings', True, True),
-    'find_first_match_1': ('request::find', ['C01', 'C02', 'C03'], 'haystacks <= 10 bytes, needle of 1 byte', False, False),
+        'find_first_match_1': ('request::find', ['C01', 'C02', 'C03'], 'haystacks <= 10 bytes, needle of 1 byte', False, False),
     'find_first_match_2': ('request::find', ['C01', 'C02', 'C03'], 'haystacks <= 10 bytes, needle of 2 bytes', False, False),
     'find_first_match_4': ('request::find', ['C02', 'C03', 'C14'], 'haystacks <= 10 bytes, needle of 4 bytes', False, False),
-    'uri_abs_path': ('Uri::get_abs_path', ['C16', 'C03'], 'all ASCII URIs of length <= 9', False, True),
+    'uri_abs_path': ('Uri::get_abs_path', ['C16', 'C03'], 'all UTF-8 URIs of length <= 9 bytes over the alphabet {h,t,p,:,/,a,.,%,U+00E9} (4 min)', False, True),
+    'deprecation_header_line': ('ResponseHeaders::write_deprecation_header', ['C05'], 'both flag values', True, False),
+    'allow_header_line_0': ('ResponseHeaders::write_allow_header', ['C05'], 'the empty Allow list', True, False),
+    'allow_header_line_1': ('ResponseHeaders::write_allow_header', ['C05'], 'all Allow lists of 1 method', False, False),
+    'allow_header_line_2': ('ResponseHeaders::write_allow_header', ['C05'], 'all Allow lists of 2 methods (1.5 min)', False, False),
+    'allow_header_line_3': ('ResponseHeaders::write_allow_header', ['C05'], 'all Allow lists of 3 methods (4 min)', False, True),
 }
 
 GROUPS = {
     'find_first_match': ['find_first_match_1', 'find_first_match_2', 'find_first_match_4'],
+    'allow_header_line': ['allow_header_line_0', 'allow_header_line_1', 'allow_header_line_2', 'allow_header_line_3'],
 }
 
 
@@ -68,6 +73,9 @@ def run_harnesses(names, repo, tier, timeout=None):
             f.write('#![cfg_attr(kani, feature(variant_count))]\n' + lib_text + '\n#[cfg(kani)]\nmod verif_kani;\n')
         with open(os.path.join(scratch, 'src', 'request.rs'), 'a') as f:
             f.write('\n#[cfg(kani)]\n#[path = "verif_kani_request.rs"]\nmod verif_kani_request;\n')
+        shutil.copy(os.path.join(VERIF, 'kani', 'harness_response.rs'), os.path.join(scratch, 'src', 'verif_kani_response.rs'))
+        with open(os.path.join(scratch, 'src', 'response.rs'), 'a') as f:
+            f.write('\n#[cfg(kani)]\n#[path = "verif_kani_response.rs"]\nmod verif_kani_response;\n')
         cmd = ['cargo', 'kani', '-j', '8', '--output-format', 'terse']
         for n in names:
             cmd += ['--harness', n]
